@@ -2604,16 +2604,35 @@ func c10VerifyShareTable(c *rt.Ctx, nc *ssa.Function, sums *c10Sums) c10Verdict 
 	if cl == nil {
 		return c10Verdict{why: "NewComponent does not set getVerifyShareFunc"}
 	}
-	if len(cl.Params) != 1 {
+	// a method value of a helper object (x.verifyShare): the method is analysed as entered through its bound
+	// wrapper, so that its receiver denotes the object captured in NewComponent
+	var ch c10Chain
+	if strings.HasPrefix(cl.Synthetic, "bound method wrapper") {
+		var inner ssa.CallInstruction
+		for _, in := range an.Instrs(cl, false) {
+			if call, ok := in.(ssa.CallInstruction); ok {
+				if inner != nil {
+					return c10Verdict{why: "getVerifyShareFunc is a method value whose wrapper is not understood", unsure: true}
+				}
+				inner = call
+			}
+		}
+		if inner == nil || c10Callee(inner) == nil {
+			return c10Verdict{why: "getVerifyShareFunc is a method value whose method is not resolved", unsure: true}
+		}
+		cl, ch = c10Callee(inner), c10Chain{inner}
+	}
+	pkP := c10ParamOfType(cl, c10PubKeyT)
+	if pkP == nil {
 		c.Bail("getVerifyShareFunc: unexpected signature")
 	}
 	// closure: every (value, nil) return is a checked comma-ok lookup of the captured map under the parameter
-	w := &c10W{fn: cl, sums: sums}
+	w := &c10W{fn: cl, ch: ch, sums: sums, objects: true}
 	states, rets := c10SuccessStates(w)
 	if w.overflow || len(states) == 0 {
 		return c10Verdict{why: "getVerifyShareFunc has no successful return", unsure: w.overflow}
 	}
-	pkT := w.cx(c10NewState()).term(cl.Params[0])
+	pkT := w.cx(c10NewState()).term(pkP)
 	var local *c10T
 	for i, st := range states {
 		cx := w.cx(st)
@@ -2631,16 +2650,23 @@ func c10VerifyShareTable(c *rt.Ctx, nc *ssa.Function, sums *c10Sums) c10Verdict 
 		}
 		local = t.args[0]
 	}
+	c10Debug("H6 verify-share table term %s", local)
 	if !local.is("makemap") {
-		return c10Verdict{why: "table captured by getVerifyShareFunc is not built in NewComponent (or is reassigned)", unsure: c10LeafUnsure(local, pfx)}
+		// the map is not followed to a make(map) of NewComponent (or of a constructor it calls): no positive
+		// evidence of a wrong table, only of a shape that is not understood — unless it is the raw table itself
+		return c10Verdict{why: "table captured by getVerifyShareFunc is not built in NewComponent (or is reassigned)",
+			unsure: !c10RootedAt(local, (&c10W{fn: nc, sums: sums}).cx(c10NewState()).term(tableP))}
 	}
-	// the captured map is filled as m[corePubkey] = allPubSharesByKey[corePubkey][shareIdx]
-	ncx := (&c10W{fn: nc, sums: sums}).cx(c10NewState())
-	tableT, idxT := ncx.term(tableP), ncx.term(idxP)
+	// the captured map is filled as m[corePubkey] = allPubSharesByKey[corePubkey][shareIdx], in NewComponent or in
+	// an in-package helper / method it calls (parameters resolve through the call chain)
+	top := &c10W{fn: nc, sums: sums, objects: true}
+	tcx := top.cx(c10NewState())
+	tableT, idxT := tcx.term(tableP), tcx.term(idxP)
 	n := 0
-	for _, in := range an.Instrs(nc, false) {
-		up, ok := in.(*ssa.MapUpdate)
-		if !ok || ncx.term(up.Map).s != local.s {
+	for _, site := range c10Down(nc, func(in ssa.Instruction) bool { _, ok := in.(*ssa.MapUpdate); return ok }) {
+		up := site.in.(*ssa.MapUpdate)
+		ncx := c10Cx{w: top, ch: site.ch, st: c10NewState()}
+		if ncx.term(up.Map).s != local.s {
 			continue
 		}
 		n++
